@@ -176,7 +176,15 @@ type RunOpts struct {
 }
 
 // RunOne executes one simulated run inside its own bubble.
+// Heartbeat, when set, is called at the start of every bubble (generation, replay,
+// minimisation candidate): the driver's stall watchdog looks at it, so that a long
+// minimisation is not mistaken for a spinning run.
+var Heartbeat func()
+
 func RunOne(t *testing.T, p *Profile, o RunOpts) (res *RunResult) {
+	if Heartbeat != nil {
+		Heartbeat()
+	}
 	res = &RunResult{Seed: o.Seed, Profile: p.Name, Property: p.Property}
 	func() {
 		defer func() {
